@@ -5,6 +5,7 @@ import scen_common
 PID = "C08"
 PROP_V = ["Props/Properties_C08.v"]
 GEN_MODULES = ["Consts", "Sites"]
+FLOW_FILES = ['note.c']
 REPLAY_HINT = "VRT_SEED=<seed> VRT_FAMILY=<f> _work/h/note_mix"
 PARTIAL = []
 
